@@ -25,6 +25,17 @@ n_step registered as RLParameters); model and oracle are always told the agent's
 
 Probes for the two repaired defects (float32 overflow of `b`, `self.batch_size` broadcast) go
 through `chk.finding`.
+
+Source translation (`pre_gate`, before the Lean gate): `py2lean_c51.py` translates `RainbowDQN.__init__` (support,
+delta_z), `_dqn_loss` (per batch row, by symbolic execution with shape / dtype inference: the clamped Bellman shift,
+`b`, floor / ceil, the two sequential masked fix-ups, the row offsets recognised as `i * num_atoms`, the two
+`index_add_` scatters, which network is asked for what, the loss) and `learn` (which batch feeds which call, gamma vs
+gamma ** n_step, the combination, `+ prior_eps`, the indices) from the source text of the tree under test into
+`lean/Gen/C51Gen.lean`; `Proofs/C51GenEq.lean` proves the generated definitions equal to `bpos`, `lowUp`, `projOne`,
+`Sample.row`, the cross-entropy and `learn` of the model and `Props/C18.lean` restates the theorems over them
+(`C18_source_translation_*`).  If the translator rejects the source or those proofs stop checking, that is a gate
+problem naming the broken equality; the stub suite below (exact read-back of every projected row, element-wise
+losses, indices, priorities; mass / mean / alone oracles) then supplies the failing input.
 """
 from __future__ import annotations
 
@@ -839,6 +850,17 @@ def degenerate_configs(chk: Check):
 
 
 # ----------------------------------------------------------------------------- check
+def pre_gate(chk: Check) -> None:
+    """Regenerate lean/Gen/C51Gen.lean from the source text of the tree under test (before the Lean gate) and
+    re-check `generated = model` (Proofs/C51GenEq.lean) and the theorems over the generated definitions
+    (Props/C18.lean, `C18_source_translation_*`)."""
+    import common
+    import py2lean_c51
+    common.translation_gate(chk, py2lean_c51, "Gen/C51Gen.lean", ["Gen.C51Gen", "Proofs.C51GenEq", "Props.C18"],
+                            "support / delta_z of __init__, the categorical projection and loss of _dqn_loss per batch "
+                            "row, and the 1-step / n-step combination, indices and priorities of learn")
+
+
 def run(chk: Check) -> None:
     rng = chk.rng
     quick = chk.tier == "quick"
